@@ -315,10 +315,17 @@ let run_checkers () =
   print_endline "C 0";
   let outs = List.init 3 (fun v -> (Printf.sprintf "O%d" v, Ok (n_of_int v))) @ List.init 3 (fun v -> (Printf.sprintf "E%d" v, Err (n_of_int v))) in
   let bb x = if x then "1" else "0" in
-  List.iter (fun (n1, o1) ->
-      List.iter (fun (n2, o2) ->
-          Printf.printf "k %s %s %s\n" n1 n2
-            (String.concat "" (List.init 5 (fun c -> bb (inconsistent n_eqb n_eqb (n_of_int c) o1 o2))))) outs) outs;
+  let family outs =
+    List.iter (fun (n1, o1) ->
+        List.iter (fun (n2, o2) ->
+            Printf.printf "k %s %s %s\n" n1 n2
+              (String.concat "" (List.init 5 (fun c -> bb (inconsistent n_eqb n_eqb (n_of_int c) o1 o2))))) outs) outs in
+  family outs;
+  (* unit payloads (one value) and string payloads (two values): the model is parametric in the payload types and their equality *)
+  family [("Ou", Ok (n_of_int 0)); ("E0", Err (n_of_int 0)); ("E1", Err (n_of_int 1))];
+  family [("O0", Ok (n_of_int 0)); ("O1", Ok (n_of_int 1)); ("Eu", Err (n_of_int 0))];
+  family [("Ou", Ok (n_of_int 0)); ("Eu", Err (n_of_int 0))];
+  family [("Oa", Ok (n_of_int 0)); ("Ob", Ok (n_of_int 1)); ("Ea", Err (n_of_int 0)); ("Eb", Err (n_of_int 1))];
   for a = 0 to 3 do
     for c = 0 to 3 do
       (* a non-Result output: EqualsChecker is equality, AlwaysConsistent is constant *)
